@@ -76,7 +76,7 @@ Eval(e) ==
                  stageCur, stageOpen, setupCleanupSeen, rvOK>>)
 
 Tick(e) ==
-    /\ why' = why \cup Fails(<< <<Cfg.mode = "file" \/ Cfg.rate_mode = FALSE \/ e.a = pendingV, "C09", "published-value-differs-from-evaluation">>,
+    /\ why' = why \cup Fails(<< <<Cfg.mode = "file" \/ Cfg.rate_mode = FALSE \/ Cfg.pool_only \/ e.a = pendingV, "C09", "published-value-differs-from-evaluation">>,
                                  <<e.a >= 0, "C09", "negative-request">> >>)
     /\ IF stopSeen THEN lateSum' = lateSum + e.a /\ Unch(sumTicks)
                    ELSE sumTicks' = sumTicks + e.a /\ Unch(lateSum)
@@ -227,7 +227,7 @@ Return(e) ==
             <<~(Cfg.rate_mode /\ Cfg.mode # "file") \/ n + dropSum <= sumTicks + lateSum, "C02", "more-started-plus-dropped-than-requested">>,
             <<(setupSeen = 1) \/ n = 0, "C06", "iterations-after-failed-setup">>,
             <<~Cfg.setup_fail \/ e.s # "", "C06", "failed-setup-did-not-fail-the-run">>,
-            <<setupCleanupSeen, "C06", "setup-cleanup-missing-at-return">>,
+            <<Cfg.pool_only \/ setupCleanupSeen, "C06", "setup-cleanup-missing-at-return">>,
             <<Cfg.light \/ ~complete \/ cleaned = ids, "C06", "iteration-cleanup-missing-at-return">>,
             <<~Cfg.rendezvous \/ rvOK, "C04", "not-all-workers-could-run-at-once">>,
             <<e.c <= Deadline + Cfg.wait_us + 3 * SLACK, "C05", "returned-too-late">> >>)
